@@ -59,6 +59,25 @@ class NumpyShim:
     def _default_int(self):
         return A.INT if self.int_mode == "math" else A.INT64
 
+    # -- numpy integer scalar constructors (bv mode): np.uint64(x) of a symbolic or, with force_symbolic, any value -> SBV
+    def _scalar(self, x, bits, signed):
+        from .proxies import SPyInt
+        if isinstance(x, SBV):
+            return SBV(x.cast(bits, signed).z, bits, signed)
+        if isinstance(x, SInt):
+            return SBV(z3.Int2BV(x.z, bits), bits, signed)
+        if self.int_mode == "bv" and getattr(self, "force_symbolic", False) and isinstance(x, (int, _np.integer)):
+            return SBV(z3.BitVecVal(int(x), bits), bits, signed)
+        return None
+
+    def uint64(self, x=0):
+        r = self._scalar(x, 64, False)
+        return r if r is not None else _np.uint64(x)
+
+    def int64(self, x=0):
+        r = self._scalar(x, 64, True)
+        return r if r is not None else _np.int64(x)
+
     # -- constructors -----------------------------------------------------
     def zeros(self, shape, dtype=None, **kw):
         return self._full(shape, dtype, 0)
